@@ -142,3 +142,19 @@ def raised_in_harness(exc):
     # innermost remaining frame is harness code: a seam that forwarded the call appears *above* library frames,
     # so reaching here means the harness itself raised
     return len(frames) == len(traceback.extract_tb(exc.__traceback__))
+
+
+def env_debug_logging(run_seed):
+    """Environment dimension: one history in eight runs in a process whose logging is configured at DEBUG level
+    (a pure function of the run seed; stored in the scenario so that replay files carry it)."""
+    return H("env-debug-logging", run_seed) % 8 == 0
+
+
+def apply_env(scenario, stats=None):
+    """Called inside the fork of a simulated history (never in a pristine reference)."""
+    if scenario.get("debug_logging"):
+        import logging
+        import os
+        logging.basicConfig(level=logging.DEBUG, stream=open(os.devnull, "w"), force=True)
+        if stats is not None:
+            stats["env:debug-logging"] = 1
